@@ -10,15 +10,17 @@ META = {
             "(user additions to built-in entries, user entries created / edited / recycled before the upgrade) that user data "
             "is kept and every definition is present afterwards. On the real code a server is initialised at "
             "DOMAIN_PREVIOUS_TGT_LEVEL, receives seeded random user content (people with imported credentials, posix, mail; "
-            "service accounts; nested groups; an OAuth2 client with scope map; memberships added to built-in groups; edits; a "
-            "recycled entry) and is then started with DOMAIN_TGT_LEVEL on the same database exactly as an upgraded kanidmd does; "
+            "service accounts; nested groups; an OAuth2 client with scope map; memberships added to built-in groups; a proper non-empty subset of the "
+            "defined values REMOVED from multi-valued attributes of built-in entries (KUpgrade RemoveSome: every such attribute in the "
+            "first upgrade, idm_high_privilege members and the system_config badlist plus a random half "
+            "in the others); edits; a recycled entry) and is then started with DOMAIN_TGT_LEVEL on the same database exactly as an upgraded kanidmd does; "
             "TLC judges the logged before/after databases: upgrade succeeds and reaches the target level, consistency check "
             "empty, every user entry kept with its liveness and every user-set value, every defined built-in entry present and "
-            "live with every defined value, and every live entry valid under the schema in force (KDirSchema!Valid).",
+            "live with every defined value, every removed value back, and every live entry valid under the schema in force (KDirSchema!Valid).",
     "note": "Def (built-in definitions of the target level) is TRUSTED INPUT extracted at run time from two independent fresh "
             "target-level servers: entries in the reserved uuid range, attributes whose values agree on both servers, attributes "
             "derived from other entries or from the instance excluded (memberof, directmemberof, dynmember, change ids, version). "
-            "User content never removes values from built-in entries (the server deliberately does not restore some of those). "
+            "Create-once members and credential_type_minimum are never removed (the server deliberately does not restore those). "
             "Level is exploration-heavy model checking: the model is small, Def is data.",
     "design_ref": "DESIGN.md section 6, C48",
     "technique": "TLC small model of definition assertion; real previous-level servers with random content upgraded, before/after dumps judged by TLA+",
@@ -31,6 +33,10 @@ def run(tier, replay):
     lib.build("store")
     mc = lib.tlc("KUpgradeMC", cfg="KUpgradeMC", pid=PID, workers=2, timeout=300)
     lib.tlc_must_pass(mc, "KUpgrade: assertion of definitions keeps user data and installs every definition")
+    # vacuity guard: with RemoveSome in the model, the shortcut "one value per attribute is enough to skip the entry" must be refuted
+    sk = lib.tlc("KUpgradeMC", cfg="KUpgradeMCskip", pid=PID, workers=2, timeout=300, tag="KUpgradeMCskip")
+    if sk["error"] or "UpgradeOk" not in sk["violated"]:
+        lib.tool_error(f"KUpgradeMC does not refute the skip-on-any-value upgrade: RemoveSome is not exercised (log {sk['log']})")
     obs = f"{wd}/obs.ndjson"
     if replay:
         lib.kverif("store", ["c48", "--out", obs, "--replay", replay], timeout=3000)
@@ -61,15 +67,37 @@ def run(tier, replay):
             miss = {a: v for a, v in miss.items() if v}
             detail = f"missing {json.dumps(miss)[:300]}" if post else "entry missing"
             sig = f"definition-missing uuid={u} attrs={','.join(sorted(miss)) if post else '*'}"
+        elif kind in ("restore", "perturbation"):
+            _, u, a = what.split(" ")
+            gone = p["removed"][u][a]
+            post = r["st"].get(u, {"attrs": {}})["attrs"].get(a, [])
+            name = (r["st"].get(u, {"attrs": {}})["attrs"].get("name") or [u])[0]
+            if kind == "restore":
+                sig = f"removed-defined-value-not-restored entry={name} attr={a}"
+                detail = f"{name}: removed before the upgrade {gone}; still missing afterwards {[v for v in gone if v not in post]}; kept {len(p['st'][u]['attrs'].get(a, []))} value(s)"
+            else:
+                sig = f"harness-perturbation-not-RemoveSome entry={name} attr={a}"
+                detail = f"removed {gone}, stored before the upgrade {p['st'][u]['attrs'].get(a, [])}"
         else:
             sig = what
             detail = json.dumps(r.get("verify"))[:300] if kind == "verify" else r["res"]
         seedline = json.dumps({k: recs[ln - 3][k] for k in ("a", "h", "hseed")}) if recs[ln - 3]["a"] == "reset" else ""
         R.violation(sig, f"upgrade {r.get('level')} -> target {r.get('target')}: {what}: {detail}", [seedline])
     ups = [r for r in recs if r["a"] == "upgrade"]
+    pres = [r for r in recs if r["a"] == "pre"]
+    names = lambda r, u: (r["st"].get(u, {"attrs": {}})["attrs"].get("name") or [u])[0]
+    # idm_high_privilege members, system_config badlist (idm_unix_authentication_read has ONE defined member: no proper non-empty subset)
+    required = {("00000000-0000-0000-0000-000000001000", "member"), ("00000000-0000-0000-0000-ffffff000027", "badlist_password")}
+    for r in pres:
+        have = {(u, a) for u, m in r["removed"].items() for a in m}
+        if not required <= have:
+            lib.tool_error(f"C48 driver did not apply RemoveSome to {sorted(required - have)}")
+    rm_pairs = sorted({f"{names(r, u)}.{a}" for r in pres for u, m in r["removed"].items() for a in m})
     small = []
     for r in recs[1:4]:
         r = dict(r)
+        if "removed" in r:
+            r["removed"] = {u: m for u, m in list(r["removed"].items())[:3]}
         for k in ("st", "ents", "schema"):
             if k in r:
                 r[k + "_size"] = len(r.pop(k))
@@ -81,9 +109,15 @@ def run(tier, replay):
         "definition_entries": len(recs[0]["def"]), "definition_attribute_values": sum(len(v) for e in recs[0]["def"].values() for v in e.values()),
         "user_entries_judged": sum(len(r["user"]) for r in recs if r["a"] == "pre"),
         "entries_schema_judged": sum(len(r["ents"]) for r in ups),
+        "remove_some_applied": sum(len(m) for r in pres for m in r["removed"].values()),
+        "remove_some_values_removed": sum(len(v) for r in pres for m in r["removed"].values() for v in m.values()),
+        "remove_some_distinct_entry_attributes": len(rm_pairs), "remove_some_attributes": sorted({x.split(".")[1] for x in rm_pairs}),
+        "remove_some_candidates_per_upgrade": [r["candidates"] for r in pres], "remove_some_refused_by_server": sum(r["refused"] for r in pres),
+        "skip_on_any_value_model_refuted": True,
         "samples": small, "l2_drift": 0,
         "from_level": recs[1].get("level") if len(recs) > 1 else None, "to_level": ups[0].get("target") if ups else None,
     }
     R.assumptions = ["Def is extracted from fresh servers of the tree under test (trusted input; a change of the shipped definitions changes Def)",
-                     "user content adds to built-in entries but never removes defined values from them"]
+                     "values removed from built-in entries before the upgrade are values of the target level's migration data (phases 3-7) of "
+                     "multi-valued attributes; create-once members and credential_type_minimum are not removed (deliberately never re-asserted)"]
     R.finish()
